@@ -45,12 +45,17 @@ class PipelineChart(PipelineChartBase, PipelineChartLike):
         input_kwargs = input_kwargs if input_kwargs is not None else {}
         pipeline_id = pipeline_id if pipeline_id is not None else generate_pipeline_id()
 
-        ctx = dag_ctx.create_context_from_chart(
-            chart=self,
-            pipeline_id=pipeline_id,
-            input_kwargs=input_kwargs,
-            meta=meta if meta is not None else {},
-        )
+        try:
+            ctx = dag_ctx.create_context_from_chart(
+                chart=self,
+                pipeline_id=pipeline_id,
+                input_kwargs=input_kwargs,
+                meta=meta if meta is not None else {},
+            )
+
+        except Exception as ex:
+            # The artifact store or an event manager of the chart could not be created: there is nobody to notify
+            return PipelineResult(pipeline_id=pipeline_id, value=None, error=ex)
 
         await ctx.emit_on_pipeline_start()
 
